@@ -66,6 +66,23 @@ Proof. unfold split_regions_prev. rewrite py_interval_len_shift. destruct ((py_i
   cbn [option_map]. f_equal. induction bs as [|b t IH]; [reflexivity|]. cbn [map filter]. rewrite region_of_shift, nonempty_shift.
   destruct (nonempty_iv (region_of BIN r b)); cbn [shl map]; rewrite IH; reflexivity. Qed.
 
+(* the decision NOT to split depends on the length of the region and the number of reads only: it is shift invariant for EVERY k
+   (not only whole bins), whatever the coverage dictionary and its key range look like after the shift *)
+Theorem unsplit_decision_shift_invariant k r count cov cov' first first' last last' :
+  py_interval_len r < MAXLEN -> count < MINREADS ->
+  split_regions BIN MAXLEN MINREADS ABSV RN RD r count cov first last = Some [r] /\
+  split_regions BIN MAXLEN MINREADS ABSV RN RD (sh k r) count cov' first' last' = Some [sh k r] /\
+  split_regions_prev BIN MAXLEN MINREADS ABSV RN RD r count cov first last = Some [r] /\
+  split_regions_prev BIN MAXLEN MINREADS ABSV RN RD (sh k r) count cov' first' last' = Some [sh k r].
+Proof. intros Hl Hc. unfold split_regions, split_regions_prev. rewrite py_interval_len_shift.
+  replace ((py_interval_len r <? MAXLEN) && (count <? MINREADS)) with true by lia. repeat split; reflexivity. Qed.
+(* conversely a region that is long enough, or holds enough reads, always goes through the bin loop *)
+Theorem split_decision_shift_invariant k r count cov first last :
+  split_regions BIN MAXLEN MINREADS ABSV RN RD (sh k r) count cov first last =
+  if (py_interval_len r <? MAXLEN) && (count <? MINREADS) then Some [sh k r]
+  else option_map (emit_regions BIN (sh k r) false) (split_bins BIN MAXLEN ABSV RN RD cov first last).
+Proof. unfold split_regions. rewrite py_interval_len_shift. reflexivity. Qed.
+
 (* the coverage dictionary of the shifted alignments is the shifted dictionary *)
 Hypothesis BIN_pos : 0 < BIN.
 Definition shaln (a:aln) : aln := (rs a + m * BIN, re a + m * BIN, snd a).
